@@ -80,6 +80,10 @@ func init() {
 			c.R.Violation("roundtrip.nil", hin, "nil", showEvent(e), "serialised well-formed event does not parse")
 			return
 		}
+		// a copy of the event (what every handler is handed) is the same event
+		if cp := e.Copy(); showEvent(cp) != showEvent(e) || string(cp.Bytes()) != wire {
+			c.R.Violation("roundtrip.copy", hin, showEvent(cp), showEvent(e), "Event.Copy() differs from the event: a relayed or logged copy changes its meaning")
+		}
 		exp, got := *e, *p
 		if len(exp.Tags) == 0 {
 			exp.Tags = nil
@@ -120,6 +124,9 @@ func init() {
 			}
 			if m := c.L.Call("tagset", before, hx(k), hx(v)); m != implOut {
 				c.R.Mismatch("tagset", hin, implOut, m)
+			}
+			if err != nil && encTags(t) != before {
+				c.R.Violation("tagapi.failed_set_changed_map", hin, encTags(t), before, "a Tags.Set that returned an error changed the tags (a value stored earlier through the tag API is lost)")
 			}
 			c.genCheck("tagset", hin, implOut, before, hx(k), hx(v))
 			if err == nil {
@@ -481,6 +488,7 @@ func runC03(c *Ctx) {
 	c.run("bytes", evIn(&girc.Event{Command: "X", Tags: girc.Tags{}}))
 	r.Count("F3", true, "witness")
 	runC03Helpers(c)
+	runC03SlowPeer(c)
 }
 
 func min(a, b int) int {
